@@ -50,6 +50,7 @@ struct CtlState {
     held: Vec<u64>,      // threads currently blocked at a hold point
     release: Vec<u64>,   // threads allowed to proceed
     hold_enabled: bool,
+    ndone: usize,
 }
 struct Ctl {
     m: Mutex<CtlState>,
@@ -59,6 +60,9 @@ struct Ctl {
 impl Ctl {
     fn log(&self, v: Value) {
         let mut s = self.m.lock().unwrap();
+        if v["ev"] == "done" {
+            s.ndone += 1;
+        }
         s.events.push(v);
         self.cv.notify_all();
     }
@@ -198,6 +202,16 @@ enum Ep {
 
 /// The call thread t performs; returns (ok, own-answer?)
 fn do_call(ep: &Ep, kind: &str, t: u64) -> (bool, bool) {
+    // a setting change instead of a call: switches the endpoint's reply-ack behaviour off / on
+    if kind == "cfg0" || kind == "cfg1" {
+        let on = kind == "cfg1";
+        match ep {
+            Ep::Fe(fe) => fe.set_hdr_flags(if on { VhostUserHeaderFlag::NEED_REPLY } else { VhostUserHeaderFlag::empty() }),
+            Ep::Be(be) => be.set_reply_ack_flag(on),
+            Ep::Gpu(_) => {}
+        }
+        return (true, true);
+    }
     match ep {
         Ep::Fe(fe) => {
             let mut fe = fe.clone();
@@ -319,6 +333,7 @@ pub fn run(cases: &[Value], trace: &mut Trace, _seed: u64) {
         {
             let mut s = ctl.m.lock().unwrap();
             s.events.clear();
+            s.ndone = 0;
             s.hold_enabled = !free;
         }
         trace.emit(json!({"ev": "reset", "id": case["id"], "ep": ep_name, "kinds": kinds, "free": free}));
@@ -385,11 +400,17 @@ pub fn run(cases: &[Value], trace: &mut Trace, _seed: u64) {
         let t0 = Instant::now();
         let total: usize = if free { kinds.len() * case["n"].as_u64().unwrap_or(200) as usize } else { handles.len() };
         let mut hang = false;
+        // "the calls do not complete" is decided by lack of progress (no new event for a long time), not by total duration
+        let mut last_n = 0usize;
+        let mut last_progress = Instant::now();
         loop {
             {
                 let mut s = ctl.m.lock().unwrap();
-                let done = s.events.iter().filter(|e| e["ev"] == "done").count();
-                if done >= total {
+                if s.events.len() != last_n {
+                    last_n = s.events.len();
+                    last_progress = Instant::now();
+                }
+                if s.ndone >= total {
                     break;
                 }
                 let h = s.held.clone();
@@ -402,7 +423,7 @@ pub fn run(cases: &[Value], trace: &mut Trace, _seed: u64) {
                     set_sched(*k, false);
                 }
             }
-            if t0.elapsed() > Duration::from_millis(if free { 20000 } else { 5000 }) {
+            if last_progress.elapsed() > Duration::from_millis(if free { 15000 } else { 8000 }) {
                 hang = true;
                 let _ = bdup.shutdown(std::net::Shutdown::Both);
                 let mut s = ctl.m.lock().unwrap();
